@@ -7,7 +7,8 @@ ground  For each of the 4 unit systems and each of the 37 unit types the consist
         the conversion code.  c(U, standard system) = Standard<U>.  RelatedUnitSystem is the inverse of the forward table.
 IR      ConsistentUnit<U>(s) with s symbolic over the four systems returns the table entry and map::at never throws;
         RelatedUnitSystem(u) with u symbolic returns s exactly when u is consistent for s and for no other system.
-        Three-call sequences ConsistentUnit<U>(s1); ConsistentUnit<V>(s2); ConsistentUnit<U>(s3) over neighbouring unit
+        Three-call sequences RelatedUnitSystem(u1 of U); RelatedUnitSystem(u2 of V); RelatedUnitSystem(u3 of U), and
+        three-call sequences ConsistentUnit<U>(s1); ConsistentUnit<V>(s2); ConsistentUnit<U>(s3) over neighbouring unit
         types (all 64 system triples, symbolic) return the table entries - no hidden state between lookups.
 """
 import sys
@@ -94,10 +95,15 @@ def generate(inv, tb):
         w3 = H.Wrapper('w_seq_' + tag, 'f64', 0, 'f64', 0,
                        'iout[0] = (long)PhQ::ConsistentUnit<%s>(static_cast<PhQ::UnitSystem>(iin[0])); iout[1] = (long)PhQ::ConsistentUnit<%s>(static_cast<PhQ::UnitSystem>(iin[1])); iout[2] = (long)PhQ::ConsistentUnit<%s>(static_cast<PhQ::UnitSystem>(iin[2]));' % (E, E2, E),
                        n_iout=3, n_iin=3, flatten=False, meta={'iin_domain': [svals, svals, svals]})
-        ws += [w1, w2, w3]
+        vals2 = sorted(tb[q2]['enumerators'].values())
+        rs_call = 'const std::optional<PhQ::UnitSystem> r%d = PhQ::RelatedUnitSystem(static_cast<%s>(iin[%d])); iout[%d] = r%d.has_value(); iout[%d] = r%d.has_value() ? (long)*r%d : -1;'
+        w4 = H.Wrapper('w_rseq_' + tag, 'f64', 0, 'f64', 0,
+                       ' '.join(rs_call % (j, (E, E2, E)[j], j, 2 * j, j, 2 * j + 1, j, j) for j in range(3)),
+                       n_iout=6, n_iin=3, flatten=False, meta={'iin_domain': [vals, vals2, vals]})
+        ws += [w1, w2, w3, w4]
         obs.append({'id': q, 'q': q, 'cu': w1.name, 'rs': w2.name, 'seq': w3.name, 'vals': vals, 'svals': svals,
                     'cons': {str(s_): u for s_, u in e['consistent']}, 'cons2': {str(s_): u for s_, u in tb[q2]['consistent']}, 'q2': q2,
-                    'rel': {str(u): s_ for u, s_ in e['related']}})
+                    'rel': {str(u): s_ for u, s_ in e['related']}, 'rel2': {str(u): s_ for u, s_ in tb[q2]['related']}, 'vals2': vals2, 'rseq': w4.name})
     return ws, obs
 
 
@@ -125,7 +131,7 @@ def one(ctx, d):
     def dom(i, vals):
         return z3.Or(*[z3.Extract(7, 0, kz[i]) == v for v in vals])
 
-    def check(o, r, w, exp_terms, doms):
+    def check(o, r, w, exp_terms, doms, pyexp=None):
         if r is None or r.error:
             o.reason = ctx.why_missing(w.name)
             return
@@ -140,6 +146,23 @@ def one(ctx, d):
             bad.append(z3.And(*(pcz + [z3.Or(*diffs)])))
         o.key = o.oid
         ctx.decide(o, doms + [z3.Or(*bad) if bad else z3.BoolVal(False)], w, None, grid=False)
+        if o.verdict == 'inconclusive' and o.model and pyexp is not None:
+            # replay of the solver's enumerator values against the natively compiled wrapper (same process state as a
+            # program making exactly these calls in this order)
+            ks = [int(v) & 0xFF for v in o.model]
+            try:
+                _, got = ctx.unit.call_native(w, [], ks)
+                want = pyexp(ks)
+            except Exception as e:
+                o.reason = 'native replay failed: %s' % e
+                return
+            if list(got) != list(want):
+                o.verdict = 'violated'
+                o.reason = 'lookups with enumerator values %s return %s natively, the tables say %s' % (ks, list(got), list(want))
+                o.replay = ctx.save_case(o, [], {'kind': 'values', 'impl': w.name, 'expected_out': [], 'expected_iout': list(want)}, ks)
+            else:
+                o.reason = 'solver model %s does not reproduce natively' % (ks,)
+            return
         if o.verdict == 'inconclusive' and o.model:
             o.verdict = 'violated'
             o.reason = 'for enumerator values %s the executed lookup does not return the table entry (or throws / reads past the table)' % (o.model,)
@@ -161,6 +184,26 @@ def one(ctx, d):
           [dom(0, d['svals']), dom(1, d['svals']), dom(2, d['svals'])])
 
 
+    w = ctx.byname[d['rseq']]
+    o = ctx.ob('%s reverse lookup sequence with %s' % (q, d['q2']), 'lookup-sequence', 'BIT',
+               '%s: three consecutive RelatedUnitSystem lookups (this type, the next type, this type again) with symbolic units each return their own reverse table entry or nothing - no state carried between lookups or shared between unit types' % q)
+
+    def has_term(key, rel):
+        h = tm.ic('i64', 0)
+        for u in rel:
+            h = tm.mk('select', 'i64', tm.mk('icmp', 'i1', 'eq', key, tm.ic('i8', int(u))), tm.ic('i64', 1), h)
+        return h
+    exp = []
+    for j, rel in enumerate((d['rel'], d['rel2'], d['rel'])):
+        exp += [has_term(k[j], rel), table_term(k[j], rel, default=-1)]
+    def pyexp(ks):
+        out = []
+        for kk, rel in zip(ks, (d['rel'], d['rel2'], d['rel'])):
+            out += [1, rel[str(kk)]] if str(kk) in rel else [0, -1]
+        return out
+    check(o, ctx.result(d['rseq']), w, exp, [dom(0, d['vals']), dom(1, d['vals2']), dom(2, d['vals'])], pyexp)
+
+
 def main():
     rep = core.Report(PROP)
     work, inv = C.setup(PROP)
@@ -172,7 +215,7 @@ def main():
     byw = {w.name: w for w in ws}
     specs = []
     for ci, part in enumerate(engine.chunk(obs, 12)):
-        names = [d[k_] for d in part for k_ in ('cu', 'rs', 'seq')]
+        names = [d[k_] for d in part for k_ in ('cu', 'rs', 'seq', 'rseq')]
         specs.append(engine.UnitSpec('c07_%d' % ci, incs, [byw[x] for x in names], {'obs': part, 'prop': PROP}, extra_clang=['-fno-inline']))
     results = engine.run_units(specs, worker, work)
     engine.collect(rep, results)
